@@ -390,6 +390,8 @@ def StrictSubclass(cls, base_cls):
 @parametrized_class_check
 class Union:
     def __init__(self, *types):
+        # None stands for NoneType, as in X | None between ordinary classes
+        types = tuple(type(None) if t is None else t for t in types)
         self.__args__ = self.types = types
 
     def codegen(self):
